@@ -31,7 +31,7 @@ func (p *c09) check(rec *core.Recorder, class string, body []mt.Stmt, ctx map[st
 	in := mt.NewInterp(set)
 	want, werr := in.Render("main", ctx)
 	pr := &mt.Printer{}
-	srcs := pr.SourceSet(set)
+	srcs := maybeLarge(rec, pr.SourceSet(set))
 	canon := canonSrcs(srcs) + canonCtx(ctx)
 	if werr != nil {
 		if ErrIsUndefined(werr) {
